@@ -31,6 +31,7 @@ func main() {
 		if err != nil {
 			lib.Fatal("parse %s: %v", path, err)
 		}
+		res = lib.FixModelResource(name, res)
 		an, err := lib.Annotate(res)
 		if err != nil {
 			lib.Fatal("annotate %s: %v", path, err)
